@@ -308,5 +308,32 @@ Proof.
     | |- NoDup (q _ ++ [_]) =>
         apply NoDup_app_iff_tail; [exact Hnd | intros Hin; destruct (Hq _ Hin) as [Hp _]; rewrite E in Hp; destruct Hp; discriminate]
     end.
-  all: match goal with |- ?G => idtac "GOAL" G end.
-Abort.
+  all: try solve [intros h Hin; apply in_app_or in Hin; destruct Hin as [Hin|[<-|[]]]; upd_cases; simpl; try tauto;
+                  try (apply Hq; exact Hin);
+                  try (exfalso; destruct (Hq _ Hin) as [Hp _]; rewrite E in Hp; destruct Hp; discriminate)].
+  (* notify_one: the rest of the queue *)
+  all: try solve [intros h Hin;
+                  try (match goal with E0 : q _ = _ :: _ |- _ => rewrite E0 in Hnd, Hq end);
+                  inversion Hnd; subst;
+                  assert (In h (t0 :: l)) as Hin' by (right; exact Hin);
+                  destruct (Hq _ Hin') as [Hp Hw];
+                  upd_cases; simpl; try tauto; try (exfalso; congruence);
+                  try (exfalso; rewrite E in Hp; destruct Hp; discriminate)].
+  (* a waiter leaves the queue *)
+  all: try match goal with
+    | Hm : mem_tid _ _ && _ = true |- _ => apply andb_true_iff in Hm; destruct Hm as [Hm _]
+    end.
+  all: try match goal with
+    | Hm : mem_tid _ _ = true |- _ => apply mem_tid_In in Hm
+    end.
+  all: try solve [intros h Hin; pose proof (remove_tid_self_notin t _ Hnd);
+                  apply remove_tid_In in Hin as Hin';
+                  upd_cases; try tauto; try (apply Hq; exact Hin')].
+  all: try solve [intros u w Hw; upd_cases; try (apply Hq; assumption); try (eapply Hwk; eauto)].
+  all: try solve [inversion Hnd; assumption].
+  all: apply remove_tid_NoDup; exact Hnd.
+Qed.
+
+Lemma reach_Inv s : reach s -> Inv s.
+Proof. induction 1; [exact Inv0|eapply Inv_step; eauto]. Qed.
+
